@@ -628,7 +628,13 @@ class _InternalBaseTracer(_InternalBaseTracerSuper, metaclass=MetaTracerStateMac
             code.body[0] = self.make_ast_rewriter(f.__code__.co_filename).visit(
                 code.body[0]
             )
-            compiled: types.CodeType = compile(code, f.__code__.co_filename, "exec")
+            compiled: types.CodeType = compile(
+                code,
+                f.__code__.co_filename,
+                "exec",
+                flags=future_flags_of(f),
+                dont_inherit=True,
+            )
             for const in compiled.co_consts:
                 if (
                     isinstance(const, types.CodeType)
@@ -1127,6 +1133,18 @@ def parse_function_source(f: Callable) -> ast.Module:
         module = ast.parse(source)
         ast.increment_lineno(module, start - 1)
     return module
+
+
+def future_flags_of(f: Callable) -> int:
+    """the `from __future__` features the module defining `f` was compiled with"""
+    import __future__
+
+    flags = 0
+    for feature_name in __future__.all_feature_names:
+        feature = getattr(__future__, feature_name)
+        if f.__code__.co_flags & feature.compiler_flag:
+            flags |= feature.compiler_flag
+    return flags
 
 
 def register_universal_handler(handler):
